@@ -31,6 +31,7 @@ Element: construct.Struct = construct.Struct(
                     cosem.CommonDataTypes.long: cosem.Long,
                     cosem.CommonDataTypes.long_unsigned: cosem.LongUnsigned,
                 },
+                default=construct.Error,  # not a register value type
             ),
             "scaler_unit" / cosem.ScalerUnitField,
             "value"
